@@ -1,6 +1,7 @@
 from checks._pool_common import ASSUMPTIONS, COMPONENTS, make, simplify_knobs, simplify_op  # noqa: F401
 
 PROP = "C12"
+RUN_WALL_S = 5  # wall-clock limit of one simulated run (a run that never returns is a violation)
 LEVEL = "exploration"
 RUNS = {"quick": 60000, "thorough": 2000000}
 BUDGET_S = {"quick": 45, "thorough": 840}
